@@ -62,6 +62,10 @@ pub enum MFn {
     /// `coalesce(x, k)` (typed constant)
     Coalesce(i8),
     Not,
+    /// `CAST(NULL AS <type of x>)` — a typed all-NULL column
+    TypedNull,
+    /// `NULL` — an untyped NULL literal (Null-typed column) standing in for x
+    UntypedNull,
 }
 
 #[derive(Clone, Debug, PartialEq, Serialize, Deserialize)]
@@ -130,6 +134,8 @@ pub enum AFn {
 #[derive(Clone, Debug, PartialEq, Serialize, Deserialize)]
 pub enum TRel {
     Scan { table: u8 },
+    /// `(VALUES (NULL, 0), (NULL, 1), …)`: a memory source with a Null-typed column c0 and BIGINT c1
+    NullValues { rows: u8 },
     Project { input: Box<TRel>, exprs: Vec<TExpr> },
     Filter { input: Box<TRel>, preds: Vec<TPred> },
     /// derived table with its own ORDER BY and optional LIMIT
@@ -171,6 +177,7 @@ fn fn_type(f: MFn, t: CT) -> Option<CT> {
         (Length, Str) => Int,
         (Coalesce(_), Int | Float | Str | Bool) => t,
         (Not, Bool) => Bool,
+        (TypedNull | UntypedNull, _) => t,
         _ => return None,
     })
 }
@@ -227,6 +234,8 @@ fn render_fn(f: MFn, t: CT, x: String) -> String {
             _ => format!("coalesce({x}, {})", k % 2 == 0),
         },
         Not => format!("(NOT {x})"),
+        TypedNull => format!("CAST(NULL AS {})", sql_type(t)),
+        UntypedNull => "NULL".to_string(),
     }
 }
 
@@ -295,6 +304,12 @@ impl R {
             TRel::Scan { table } => {
                 let t = pick(*table, 3);
                 Out { sql: format!("SELECT id AS c0, a AS c1, b AS c2, s AS c3, f AS c4, p AS c5 FROM t{t}"), types: vec![CT::Int, CT::Int, CT::Int, CT::Str, CT::Float, CT::Bool] }
+            }
+            TRel::NullValues { rows } => {
+                let n = (*rows % 4) as usize + 1;
+                let vals: Vec<String> = (0..n).map(|i| format!("(NULL, {i})")).collect();
+                let a = self.alias();
+                Out { sql: format!("SELECT {a}.column1 AS c0, {a}.column2 AS c1 FROM (VALUES {}) AS {a}", vals.join(", ")), types: vec![CT::Int, CT::Int] }
             }
             TRel::Project { input, exprs } => {
                 let i = self.rel(input);
@@ -511,7 +526,7 @@ impl TQuery {
     pub fn has_limit(&self) -> bool {
         fn rel(r: &TRel) -> bool {
             match r {
-                TRel::Scan { .. } => false,
+                TRel::Scan { .. } | TRel::NullValues { .. } => false,
                 TRel::Sort { input, fetch, .. } => fetch.is_some() || rel(input),
                 TRel::Project { input, .. } | TRel::Filter { input, .. } | TRel::Window { input, .. } | TRel::Agg { input, .. } | TRel::Distinct { input } => rel(input),
                 TRel::Union { left, right } | TRel::Join { left, right, .. } => rel(left) || rel(right),
@@ -523,6 +538,7 @@ impl TQuery {
         fn rel(r: &TRel, out: &mut Vec<String>) {
             let (name, kids): (&str, Vec<&TRel>) = match r {
                 TRel::Scan { .. } => ("scan", vec![]),
+                TRel::NullValues { .. } => ("null-values", vec![]),
                 TRel::Project { input, .. } => ("project", vec![input]),
                 TRel::Filter { input, .. } => ("filter", vec![input]),
                 TRel::Sort { input, fetch, .. } => (if fetch.is_some() { "topk" } else { "sort" }, vec![input]),
@@ -582,6 +598,8 @@ fn mfn() -> BoxedStrategy<MFn> {
         Just(Length),
         (-2i8..=2).prop_map(Coalesce),
         Just(Not),
+        Just(TypedNull),
+        Just(UntypedNull),
     ]
     .boxed()
 }
@@ -601,7 +619,7 @@ fn pred() -> BoxedStrategy<TPred> {
 }
 
 fn trel(allow_limit: bool) -> BoxedStrategy<TRel> {
-    let leaf = any::<u8>().prop_map(|table| TRel::Scan { table });
+    let leaf = prop_oneof![9 => any::<u8>().prop_map(|table| TRel::Scan { table }), 1 => any::<u8>().prop_map(|rows| TRel::NullValues { rows })];
     leaf.prop_recursive(4, 14, 2, move |inner| {
         let fetch: BoxedStrategy<Option<u8>> = if allow_limit { prop_oneof![2 => Just(None), 1 => any::<u8>().prop_map(Some)].boxed() } else { Just(None).boxed() };
         prop_oneof![
